@@ -401,8 +401,9 @@ func (w *W) extractCex(model map[string]uint64, nodes map[int]uint64) *Cex {
 		ev.memo[id] = v
 	}
 	c := &Cex{Nondets: map[string]string{}}
-	for _, v := range w.nondets {
-		val := ev.eval(v)
+	for _, v0 := range w.nondets {
+		val := ev.eval(v0)
+		v := &Term{name: w.ndName(v0), w: v0.w}
 		switch v.w {
 		case 0:
 			c.Nondets[v.name] = strconv.FormatBool(val != 0)
